@@ -718,6 +718,41 @@ class LowerSliceViews:
         return b[2]
 
 
+REGROUP_FUNCS = [
+    # (lean name, impl header needle, fn, receiver is &mut, extent of the receiver in elements T)
+    ("flattenRef", "Flatten<T,N,M>for&'aGenericArray<GenericArray<T,N>,M>", "flatten", False, "(.mul .n .k)"),
+    ("flattenMut", "Flatten<T,N,M>for&'amutGenericArray<GenericArray<T,N>,M>", "flatten", True, "(.mul .n .k)"),
+    ("unflattenRef", "Unflatten<T,NM,N>for&'aGenericArray<T,NM>", "unflatten", False, ".k"),
+    ("unflattenMut", "Unflatten<T,NM,N>for&'amutGenericArray<T,NM>", "unflatten", True, ".k"),
+]
+
+
+def lower_regroup_fn(toks, needle, fname, recv_mut, ext):
+    """by-reference flatten / unflatten: `unsafe { mem::transmute(self) }`, or a cast of the receiver's own pointer"""
+    cont = [x for x in items(toks, "impl") if needle in x.header_text().replace(" ", "")]
+    if not cont:
+        raise Cant("impl %s not found" % needle)
+    f = find_fn(toks, fname, cont[0].lo, cont[0].hi)
+    e = rsbody.parse_body(f.body)
+    while e[0] == "block" and not e[1] and e[2] is not None:
+        e = e[2]
+    wr = "true" if recv_mut else "false"
+    if e[0] == "call" and e[1][0] == "path" and e[1][1].endswith("mem::transmute") and e[2] == [("path", "self")]:
+        return [".transmuteSelf 0 %s %s" % (ext, wr), ".retViews [0]"]
+    if e[0] == "un" and e[1] in ("&", "&mut") and e[2][0] == "un" and e[2][1] == "*":
+        inner = e[2][2]
+        while inner[0] in ("cast", "paren"):
+            inner = inner[1]
+        vwr = "true" if e[1] == "&mut" else "false"
+        if inner == ("path", "self"):
+            # `&*(self as *const _ as *const _)`: the receiver reference as a raw pointer
+            return [".ptrArg 0 %s %s" % (vwr, ext), ".viewAt 0 0 (.lit 0) %s %s" % (ext, vwr), ".retViews [0]"]
+        if inner[0] == "method" and inner[2] in ("as_ptr", "as_mut_ptr") and inner[1] == ("path", "self") and not inner[3]:
+            pwr = "true" if inner[2] == "as_mut_ptr" else "false"
+            return [".ptrArg 0 %s %s" % (pwr, ext), ".viewAt 0 0 (.lit 0) %s %s" % (ext, vwr), ".retViews [0]"]
+    raise Cant("body of by-reference %s" % fname)
+
+
 LIB_VIEW_FUNCS = ["as_slice", "as_mut_slice", "from_slice", "try_from_slice", "from_mut_slice", "chunks_from_slice", "chunks_from_slice_mut",
                   "slice_from_chunks", "slice_from_chunks_mut"]
 
@@ -780,6 +815,15 @@ def main():
             status[lean] = {"status": "unlowered", "reason": "%s: %s" % (type(e).__name__, str(e)[:200])}
             print("NOTE body-unlowered fn=sequence.rs:%s(%s) reason=%s" % (fname, "&mut" if recv_mut else "&", status[lean]["reason"]))
         defs.append("/-- `%s` on `%sGenericArray` (src/sequence.rs), every statement in source order -/\ndef %s : List VStmt := [\n  %s]\n" % (fname, "&mut " if recv_mut else "&", lean, ",\n  ".join(stmts)))
+    for lean, needle, fname, recv_mut, ext in REGROUP_FUNCS:
+        try:
+            stmts = lower_regroup_fn(toks, needle, fname, recv_mut, ext)
+            status[lean] = {"status": "ok", "notes": [], "statements": len(stmts)}
+        except (Cant, Unparsed, StopIteration, IndexError, KeyError) as e:
+            stmts = [".opaque"]
+            status[lean] = {"status": "unlowered", "reason": "%s: %s" % (type(e).__name__, str(e)[:200])}
+            print("NOTE body-unlowered fn=sequence.rs:%s(%s) reason=%s" % (fname, "&mut" if recv_mut else "&", status[lean]["reason"]))
+        defs.append("/-- `%s` on `%s…` (src/sequence.rs) -/\ndef %s : List VStmt := [\n  %s]\n" % (fname, "&mut " if recv_mut else "&", lean, ",\n  ".join(stmts)))
     ltoks = tokenize(open(os.path.join(REPO, "src", "lib.rs")).read())
     for fname in LIB_VIEW_FUNCS:
         lean = lean_name(fname)
@@ -805,7 +849,7 @@ def main():
             f.write(out)
     os.makedirs(BUILD, exist_ok=True)
     json.dump(status, open(os.path.join(BUILD, "seqbody_status.json"), "w"), indent=1, sort_keys=True)
-    print("seqbody: %d bodies, %d unlowered" % (len(FUNCS) + len(VIEW_FUNCS) + len(LIB_VIEW_FUNCS), sum(1 for v in status.values() if v["status"] != "ok")))
+    print("seqbody: %d bodies, %d unlowered" % (len(FUNCS) + len(VIEW_FUNCS) + len(LIB_VIEW_FUNCS) + len(REGROUP_FUNCS), sum(1 for v in status.values() if v["status"] != "ok")))
 
 
 if __name__ == "__main__":
